@@ -623,7 +623,9 @@ func (m *Machine) speculate(fr *frame, s *ssa.BasicBlock) (ok bool) {
 					return false
 				}
 			}
-			if _, isS := x.(sstr); isS {
+			_, xS := x.(sstr)
+			_, yS := y.(sstr)
+			if (xS || yS) && in.Op != token.EQL && in.Op != token.NEQ {
 				return false
 			}
 			_ = y
